@@ -1,12 +1,15 @@
 #!/bin/bash
-# try_mutant.sh <patch.diff> <ID> [<ID>...] — apply a patch to /repo, run the quick checks, undo it.
-# Evidence files are saved and restored: committed evidence must come from runs on the unchanged tree.
+# try_mutant.sh <patch.diff> <ID> [<ID>...] — run the quick checks against a scratch worktree of /repo with the patch
+# applied (VERIF_REPO); /repo itself is never touched. Evidence files are saved and restored: committed evidence must
+# come from runs on the unchanged tree. The harness binaries are rebuilt from /repo by the next ordinary run.
 patch=$1; shift
 cd /verif
-git -C /repo apply "$patch" || { echo "PATCH DOES NOT APPLY"; exit 3; }
+wt=/tmp/mutrepo_$$
+git -C /repo worktree add --detach $wt HEAD -q || exit 3
+trap 'git -C /repo worktree remove --force '$wt' 2>/dev/null' EXIT
+git -C $wt apply "$patch" || { echo "PATCH DOES NOT APPLY"; exit 3; }
 for id in "$@"; do
   cp evidence/$id.json /tmp/evidence_$id.bak 2>/dev/null
-  ./check $id --tier quick 2>&1 | tail -6; echo "exit[$id]=${PIPESTATUS[0]}"
+  VERIF_REPO=$wt ./check $id --tier quick 2>&1 | tail -6; echo "exit[$id]=${PIPESTATUS[0]}"
   mv /tmp/evidence_$id.bak evidence/$id.json 2>/dev/null
 done
-git -C /repo checkout -- . ; git -C /repo status --short | grep -v verif_hooks | head
